@@ -65,7 +65,9 @@ def run(ctx):
                        'the registry is the one of the linux build of /repo (platform-specific plugin files select their linux or dummy variant)',
                        'Go map iteration order is unspecified: results of FromNames / FromCapabilities are compared as sets (every key has members with distinct names: C19_tables_wellformed)',
                        'plugin initialisers are deterministic (calling one twice yields the same Name/Requirements)']
-    ctx.rule = ('seq = operation sequences: the registry\'s all/default lists and FromCapabilities results filtered with every ordered pair of 10 capability tuples (and 3-4 in a row), hand-made lists '
+    ctx.rule = ('prer = scan-root shapes {none, one real directory, one virtual FS (Path ""), real+virtual} x 60 capability tuples x (filtered registry, filtered defaults, unfiltered defaults, EVERY plugin alone): '
+                'real EnableRequiredExtractors + ValidatePluginRequirements on the real plugins and a real scalibr.New().Scan with inert stand-ins carrying each plugin\'s name/requirements: never a requirement-validation failure for a filtered set; '
+                'seq = operation sequences: the registry\'s all/default lists and FromCapabilities results filtered with every ordered pair of 10 capability tuples (and 3-4 in a row), hand-made lists '
                 'with 2-4 random tuples: every result, every EARLIER result re-read after the later calls and the input list afterwards must be what the pure model says; exhaustive in both tiers: val = all 60x60 (requirement, capability) pairs; fromcaps = 3 registries x 60 tuples; names = every registered key; name = every key of every '
                 'table looked up as an exact name in both extractor tables; pre = Scan\'s pre-check of the filtered/unfiltered registry and of each detector alone for all 60 tuples; '
                 'pref = a hand-made detector requiring each registered extractor x 2 detector requirements x 60 tuples; reqd = each detector; uniq. Random on top: name lists with '
@@ -127,6 +129,18 @@ def run(ctx):
                    ('requirement validation fails for %s' % unhexl(res[8:])) if res.startswith('invalid:') else res
             return 'scan configured from the capability-FILTERED selection fs=%s standalone=%s detectors=%s under %s: %s' % (
                 unhexl(t[3]), unhexl(t[4]), unhexl(t[5]), caps_str(t[2]), what)
+        if op == 'prer' and t[2] == '1':
+            shape = {'n': 'no scan root', 'r': 'one real directory', 'v': 'one virtual file system (ScanRoot.Path == "")', 'rv': 'a real directory and a virtual file system'}.get(t[1], t[1])
+            sel = 'fs=%s standalone=%s detectors=%s' % (unhexl(t[4]), unhexl(t[5]), unhexl(t[6]))
+            res = fi.get('res', '')
+            if res not in ('ok', 'badname'):
+                what = ('required extractor %r cannot be enabled automatically' % unhex(res[8:])) if res.startswith('missing:') else \
+                       ('ValidatePluginRequirements fails for %s' % unhexl(res[8:])) if res.startswith('invalid:') else res
+                return 'scan configured from the capability-FILTERED selection %s under %s with scan roots = %s: %s (the outcome must depend on capabilities and plugin requirements only)' % (
+                    sel, caps_str(t[3]), shape, what)
+            if fi.get('scan') in ('prefail', 'other'):
+                return 'a real Scan configured from the capability-FILTERED selection %s under %s with scan roots = %s FAILED %s' % (
+                    sel, caps_str(t[3]), shape, 'requirement validation' if fi.get('scan') == 'prefail' else 'for another reason')
         if op == 'seq' and 'sr' in fm:
             if fi.get('r') != fm['sr']:
                 return 'FilterByCapabilities(%s) on the SAME list for the capability tuples %s in a row: results %s, the satisfied plugins are %s (a filter must be a pure function of its arguments)' % (
@@ -147,7 +161,7 @@ def run(ctx):
         return case.split(' ')[0] + ':' + (fi.get('res', fi.get('ok', fi.get('_', ''))).split(':')[0] or '-')[:10]
 
     lib.standard_stream(ctx, gen='c19gen', driver='drv_c19', gen_args=['-seed', str(ctx.seed), '-n', str(n), '-tier', ctx.tier],
-                        compare_keys=['errs', 'ok', 'names', 'kept', 'res', 'fs', 'st', 'n', 'dup', 'r', 'after', 'input'], nontrivial=nontrivial, oracle=oracle, classify=classify,
+                        compare_keys=['errs', 'ok', 'names', 'kept', 'res', 'fs', 'st', 'n', 'dup', 'r', 'after', 'input', 'scan'], nontrivial=nontrivial, oracle=oracle, classify=classify,
                         sample_every=997)
     if not proofs_ok:
         lib.proof_failed(ctx, 'Scalibr.Properties.C19' + (': ' + ', '.join(failed) if failed else ''))
